@@ -101,7 +101,9 @@ CHECKS["C19"] = {
              "patricia_tree_set and discrete_domain: every sequence of <=4 (5) operations from {add k, remove k, union, union_with, intersection, "
              "intersection_with, copy, clear/top, empty/bottom}. After every step: lookup of every key, iteration = exactly the non-top bindings once, "
              "size, is_top/is_bottom, inclusion both ways == pointwise, ==. states = operation histories executed (nothing merged); "
-             "distinct_nontrivial = histories ending with both registers holding at least one binding/element."),
+             "distinct_nontrivial = histories ending with both registers holding at least one binding/element. "
+             "Large environments: separate_domain values with 4..8 bindings x every subset of keys x three orders of the key vector (increasing, "
+             "decreasing, rotated): project(keys) and key-by-key forget must agree with the std::map model (project switches strategy with the size)."),
     "assumptions": ["rename only onto unbound fresh keys (documented precondition)", "interval<z_number> as value lattice (covered by C08)"],
     "level_text": ("Exhaustive stateless exploration of every operation history up to the stated depth on the real patricia-tree containers "
                    "(structure sharing through copies included), each step compared with a boring reference model."),
@@ -393,7 +395,8 @@ CHECKS["C15"] = {
              "everything (5 / 4 thorough), from the state after region_init(R1), region_init(RR), region_init(RB) and (depth <=3) from top without "
              "region_init; a third root = a boolean region RB holding two objects referenced by p and q, with its own alphabet (b1:=true/false, "
              "havoc(b1), stores of b1 through p and q, loads into b2, alias q:=gep(p,RB,0), assume p==q / p!=q, a new allocation, save / join / "
-             "widening / swap) to depth 5 (6); "
+             "widening / swap) to depth 5 (6); a fourth root 'maybe allocated' = the join of the declared-regions state with the state after "
+             "p:=make_ref(R1); q:=gep(p,R1,0); store(p,R1,5) (reference counter zero-or-one), core alphabet; "
              "7 domains (region domain over intervals, zones, constants, signs, sign x constant, flat boolean x intervals, array_adaptive) x "
              "every region_domain_params tuple of the configuration lists (allocation sites, deallocation, tag analysis, is_dereferenceable, "
              "skip_unknown_regions). Clauses: a state with a concrete heap is never bottom, also not after a load; scalars satisfy M1/M3; "
